@@ -285,6 +285,26 @@ func (a *afCtx) check() {
 				fmt.Sprintf("%s passes the final path filepath.Join(base, name) to %s: a crash or I/O error in the middle leaves a partial node under its final name, which Load then serves and the exists-shortcut never repairs", fname, callName(call)))
 			return
 		}
+		// the final path may only be probed read-only and be the destination of the rename
+		if fr.child(call) == nil {
+			for i, arg := range args {
+				if _, isStr := arg.Type().Underlying().(*types.Basic); !isStr || !a.isFinal(arg, fr) {
+					continue
+				}
+				switch {
+				case id == "os.Stat" || id == "os.Lstat" || id == "os.Open" || id == "os.Readlink" || id == "os.ReadFile":
+				case id == "os.Rename" && i == 1:
+				case strings.HasPrefix(id, "path/filepath.") || strings.HasPrefix(id, "path.") || strings.HasPrefix(id, "strings.") || strings.HasPrefix(id, "fmt.") || strings.HasPrefix(id, "errors."):
+				case strings.HasPrefix(id, "os.") || strings.HasPrefix(id, "io/ioutil.") || strings.HasPrefix(id, "syscall."):
+					a.violated = true
+					c.Violation(fn, P.InstrPos(call), "final path passed to "+callName(call),
+						fmt.Sprintf("%s applies %s to the final path filepath.Join(base, name): the node's name may only be probed read-only and be the destination of the rename — removing, truncating, moving or re-moding it (here even on a failure path) destroys or exposes the complete node another writer has published under that name", fname, callName(call)))
+				default:
+					a.undecided = true
+					c.Undecided(fn, P.InstrPos(call), "final path passed to "+callName(call), "the final path is handed to a function whose effect on the file the rule does not know")
+				}
+			}
+		}
 		switch id {
 		case "os.CreateTemp", "io/ioutil.TempFile":
 			a.addStep(key)
@@ -383,6 +403,23 @@ func (a *afCtx) check() {
 			}
 		}
 	})
+
+	// ---- the bytes are written exactly once per temp file ------------------
+	for key := range a.writeOf {
+		site := ssa.Instruction(key.call)
+		for f := key.fr; f != nil; f = f.up {
+			if why := repeatsWithoutReset(site); why != "" {
+				a.violated = true
+				c.Violation(f.fn, P.InstrPos(site), "temp file written in a loop",
+					fmt.Sprintf("the write of the bytes to the temp file (%s) can execute again on the same file (%s) without a fresh CreateTemp or a Truncate(0)+Seek(0) in between: a write retried after a partial write appends the whole node after the partial bytes, and that file is renamed into place", P.InstrPos(key.call), why))
+				break
+			}
+			if f.call == nil {
+				break
+			}
+			site = f.call
+		}
+	}
 
 	// ---- (b) every success return completes the sequence ------------------
 	if inPlace {
@@ -888,4 +925,50 @@ func atomicLoad(c *Ctx, b backendImpl, baseField string) {
 	if n == 0 {
 		c.Undecided(fn, P.Pos(fn.Pos()), "Load reads no file", "Load (and its helpers to depth 2) contains no os.ReadFile/os.Open call")
 	}
+}
+
+// repeatsWithoutReset: instruction ins lies on a cycle of its function's CFG
+// that passes no block which starts over on a new or emptied file (a
+// CreateTemp, or Truncate together with Seek on an *os.File).
+func repeatsWithoutReset(ins ssa.Instruction) string {
+	b0 := ins.Block()
+	if b0 == nil {
+		return ""
+	}
+	resets := func(b *ssa.BasicBlock) bool {
+		trunc, seek := false, false
+		for _, x := range b.Instrs {
+			ci, ok := x.(ssa.CallInstruction)
+			if !ok {
+				continue
+			}
+			switch staticID(ci) {
+			case "os.CreateTemp", "io/ioutil.TempFile":
+				return true
+			case "(*os.File).Truncate":
+				trunc = true
+			case "(*os.File).Seek":
+				seek = true
+			}
+		}
+		return trunc && seek
+	}
+	if resets(b0) {
+		return ""
+	}
+	seen := map[*ssa.BasicBlock]bool{}
+	work := append([]*ssa.BasicBlock(nil), b0.Succs...)
+	for len(work) > 0 {
+		b := work[len(work)-1]
+		work = work[:len(work)-1]
+		if b == b0 {
+			return fmt.Sprintf("block %d is on a loop", b0.Index)
+		}
+		if seen[b] || resets(b) {
+			continue
+		}
+		seen[b] = true
+		work = append(work, b.Succs...)
+	}
+	return ""
 }
